@@ -147,6 +147,72 @@ def transform(kind, src):
             if all(pure(v) for v in n.values):
                 op = "and" if isinstance(n.op, ast.And) else "or"
                 edits.append(Edit(n, f"{bsegment(src, n.values[1])} {op} {bsegment(src, n.values[0])}"))
+    if kind == "T11":
+        # `return A and B and C` in __eq__  ->  `if not (A): return False` ... `return C`
+        lines = src.split("\n")
+        for fn in ast.walk(tree):
+            if isinstance(fn, ast.FunctionDef) and fn.name == "__eq__":
+                for n in ast.walk(fn):
+                    if isinstance(n, ast.Return) and isinstance(n.value, ast.BoolOp) and isinstance(n.value.op, ast.And) and len(n.value.values) >= 2 \
+                            and lines[n.lineno - 1][:n.col_offset].strip() == "":
+                        ind = " " * n.col_offset
+                        parts = [bsegment(src, v) for v in n.value.values]
+                        out = []
+                        for pt in parts[:-1]:
+                            out.append(f"if not ({pt}):\n{ind}    return False")
+                        out.append(f"return bool({parts[-1]})")
+                        edits.append(Edit(n, ("\n" + ind).join(out)))
+    if kind == "T13":
+        # guard inversion:  if C: <body ending in return>  ; raise X      ->      if not (C): raise X ; <body>
+        lines = src.split("\n")
+        for fn in ast.walk(tree):
+            if not isinstance(fn, ast.FunctionDef):
+                continue
+            body = [b for b in fn.body if not (isinstance(b, ast.Expr) and isinstance(b.value, ast.Constant))]
+            if len(body) == 2 and isinstance(body[0], ast.If) and not body[0].orelse and isinstance(body[1], ast.Raise) \
+                    and isinstance(body[0].body[-1], ast.Return) and body[0].lineno == body[0].test.end_lineno:
+                iff, rs = body
+                seg = lines[iff.body[0].lineno - 1:iff.body[-1].end_lineno]
+                if any('"""' in ln or "'''" in ln for ln in seg):
+                    continue
+                ind = " " * iff.col_offset
+                if not all(ln.startswith(ind + "    ") or ln.strip() == "" for ln in seg):
+                    continue
+                ded = [ln[4:] if ln.strip() else ln for ln in seg]
+                raise_txt = "\n".join(lines[rs.lineno - 1:rs.end_lineno])
+                raise_ind = "\n".join(("    " + ln) if ln.strip() else ln for ln in raise_txt.split("\n"))
+                new_txt = f"if not ({bsegment(src, iff.test)}):\n{raise_ind}\n" + "\n".join(ded)
+
+                class Span:
+                    pass
+                sp = Span()
+                sp.lineno, sp.col_offset = iff.lineno, iff.col_offset
+                sp.end_lineno, sp.end_col_offset = rs.end_lineno, rs.end_col_offset
+                edits.append(Edit(sp, new_txt))
+    if kind == "T8":
+        # rename every function-local variable (not a parameter) in functions without nested scopes that could capture it
+        for fn in ast.walk(tree):
+            if not isinstance(fn, (ast.FunctionDef, ast.AsyncFunctionDef)):
+                continue
+            inner = [x for x in ast.walk(fn) if x is not fn and isinstance(x, (ast.FunctionDef, ast.AsyncFunctionDef, ast.Lambda, ast.ClassDef))]
+            if inner:
+                continue
+            if any(isinstance(x, (ast.Global, ast.Nonlocal)) for x in ast.walk(fn)):
+                continue
+            a = fn.args
+            params = {x.arg for x in a.posonlyargs + a.args + a.kwonlyargs} | ({a.vararg.arg} if a.vararg else set()) | ({a.kwarg.arg} if a.kwarg else set())
+            bound_other = set()
+            for x in ast.walk(fn):
+                if isinstance(x, (ast.Import, ast.ImportFrom)):
+                    for al in x.names:
+                        bound_other.add((al.asname or al.name).split(".")[0])
+                if isinstance(x, ast.ExceptHandler) and x.name:
+                    bound_other.add(x.name)
+            assigned = {x.id for x in ast.walk(fn) if isinstance(x, ast.Name) and isinstance(x.ctx, (ast.Store, ast.Del))} - params - bound_other
+            assigned = {v for v in assigned if not v.startswith("_hgsa")}
+            for x in ast.walk(fn):
+                if isinstance(x, ast.Name) and x.id in assigned:
+                    edits.append(Edit(x, x.id + "_r"))
     if not edits:
         return src, 0
     out, k = apply_edits(src, edits)
@@ -215,10 +281,11 @@ def run_one(args):
     return kind, prop, total, ("FALSE-ALARM" if new else "silent"), new
 
 
-KINDS = ["T1", "T2", "T3", "T4", "T5", "T6", "T7"]
+KINDS = ["T1", "T2", "T3", "T4", "T5", "T6", "T7", "T8", "T11", "T13"]
 KIND_DESC = {"T1": "operands of ==/!= swapped", "T2": "ordering comparisons mirrored", "T3": "`entries += e` written as `entries = entries + e`",
              "T4": "negated test with swapped branches", "T5": "return through a temporary", "T6": "float sums/products of the same field commuted",
-             "T7": "pure operands of and/or swapped"}
+             "T7": "pure operands of and/or swapped", "T8": "function-local variables renamed",
+             "T11": "`return A and B` of __eq__ unfolded into guard statements", "T13": "type guard inverted: `if not isinstance: raise` first"}
 
 
 def run_property(prop, jobs=8):
@@ -234,7 +301,7 @@ def run_property(prop, jobs=8):
 
 
 def main(argv):
-    kinds = [a for a in argv if a.startswith("T")] or ["T1", "T2", "T3", "T4", "T5", "T6", "T7"]
+    kinds = [a for a in argv if a.startswith("T")] or list(KINDS)
     props = PROPS
     only = None
     for i, a in enumerate(argv):
